@@ -2,7 +2,8 @@
    Only the property theorems; proofs are in Fields/SetChainProofs.v. *)
 From Coq Require Import ZArith NArith String List.
 Import ListNotations.
-From TP Require Import Base.PyVal Fields.FieldAst Fields.SetChain Fields.Doc Fields.Domain Fields.SetChainProofs.
+From TP Require Import Base.PyVal Base.PyOps Fields.FieldAst Fields.SetChain Fields.Doc Fields.Domain Fields.SetChainProofs.
+From TP Require Import Gen.Guards Fields.GuardProofs.
 Local Open Scope string_scope.
 
 Section C02.
@@ -24,8 +25,68 @@ Section C02.
   (* the two in one: outcome of the code and documented verdict coincide *)
   Theorem C02_agree : forall f v, dom f v = true -> agree (vset re_match e f v) (docb re_match e f v).
   Proof. exact (vset_agrees_with_doc re_match e). Qed.
+
+  (* ---- the tie to the source, re-checked by the kernel on every run --------------------------------
+     Gen/Guards.v is re-generated from typedpy/fields/*.py (harness/genmods/py2v.py); the guard functions
+     the code contains NOW coincide, for every declaration and every value, with the ones the model of
+     the __set__ chains ([vset], about which the theorems above speak) is built from. *)
+  Theorem C02_src_number : forall c v, Number__validate_static re_match (numc_self c) v = number_static c v.
+  Proof. exact (generated_number_static re_match). Qed.
+  Theorem C02_src_positive : forall self v, Positive__set re_match self v = (_ <- sign_check SPositive v ;; Ok v).
+  Proof. exact (generated_positive re_match). Qed.
+  Theorem C02_src_negative : forall self v, Negative__set re_match self v = (_ <- sign_check SNegative v ;; Ok v).
+  Proof. exact (generated_negative re_match). Qed.
+  Theorem C02_src_nonpositive : forall self v, NonPositive__set re_match self v = (_ <- sign_check SNonPositive v ;; Ok v).
+  Proof. exact (generated_nonpositive re_match). Qed.
+  Theorem C02_src_nonnegative : forall self v, NonNegative__set re_match self v = (_ <- sign_check SNonNegative v ;; Ok v).
+  Proof. exact (generated_nonnegative re_match). Qed.
+  Theorem C02_src_string : forall c v,
+      (_ <- String__validate_static re_match (strc_self c) v ;; Ok v) = string_chain re_match c v.
+  Proof. exact (generated_string_static re_match). Qed.
+  Theorem C02_src_boolean : forall v,
+      (v' <- Boolean__set re_match no_self v ;; _ <- Boolean__validate re_match no_self v' ;; Ok v') = boolean_chain v.
+  Proof. exact (generated_boolean re_match). Qed.
+  Theorem C02_src_size : forall sz items n,
+      py_len items = Ok (zint n) ->
+      SizedCollection_validate_size re_match (sizec_self sz) items = size_check sz n.
+  Proof. exact (generated_validate_size_len re_match). Qed.
+  Theorem C02_src_unique_list : forall u v,
+      verify_type_and_uniqueness_list re_match no_self v (PBool u) =
+      match v with PList l => uniq_check u l | _ => Raise TypeError end.
+  Proof. exact (generated_verify_list re_match). Qed.
+  Theorem C02_src_unique_deque : forall u v,
+      verify_type_and_uniqueness_deque re_match no_self v (PBool u) =
+      match v with PDeque l => uniq_check u l | _ => Raise TypeError end.
+  Proof. exact (generated_verify_deque re_match). Qed.
+  Theorem C02_src_unique_tuple : forall u v,
+      verify_type_and_uniqueness_tuple re_match no_self v (PBool u) =
+      match v with PTuple l => uniq_check u l | _ => Raise TypeError end.
+  Proof. exact (generated_verify_tuple re_match). Qed.
+  Theorem C02_src_array_positional : forall (items : list field) additional l,
+      Array_positional_len_bad re_match (pos_self items additional) (PList l) = Ok (pos_len_bad items additional l).
+  Proof. exact (generated_array_positional re_match). Qed.
+  Theorem C02_src_deque_positional : forall (items : list field) additional l,
+      Deque_positional_len_bad re_match (pos_self items additional) (PDeque l) = Ok (pos_len_bad items additional l).
+  Proof. exact (generated_deque_positional re_match). Qed.
+  Theorem C02_src_tuple_len : forall (items : list field) l,
+      Tuple_len_bad re_match (pos_self items None) (PTuple l) = Ok (andb (negb (lenZ items =? lenZ l)%Z) (1 <? lenZ items)%Z).
+  Proof. exact (generated_tuple_len re_match). Qed.
 End C02.
 
+Print Assumptions C02_src_number.
+Print Assumptions C02_src_positive.
+Print Assumptions C02_src_negative.
+Print Assumptions C02_src_nonpositive.
+Print Assumptions C02_src_nonnegative.
+Print Assumptions C02_src_string.
+Print Assumptions C02_src_boolean.
+Print Assumptions C02_src_size.
+Print Assumptions C02_src_unique_list.
+Print Assumptions C02_src_unique_deque.
+Print Assumptions C02_src_unique_tuple.
+Print Assumptions C02_src_array_positional.
+Print Assumptions C02_src_deque_positional.
+Print Assumptions C02_src_tuple_len.
 Print Assumptions C02_decision.
 Print Assumptions C02_error_class.
 Print Assumptions C02_agree.
